@@ -105,6 +105,18 @@ def run_case(cs):
             for f, dg, a, _hd in rec["entries"]:
                 if a != "failed":
                     w.setdefault(f, dg)
+    if rng.random() < 0.25 and want:
+        # another card flattened into the same collection folder earlier (it shares a relative path, other content)
+        other = os.path.join(d, "OtherCard")
+        shared = rng.choice(sorted(want))
+        os.makedirs(os.path.dirname(os.path.join(other, shared)), exist_ok=True)
+        with open(os.path.join(other, shared), "wb") as fh:
+            fh.write(b"content of the other card" + rng.randbytes(4))
+        ro = drive.run("create", [other] + world.fmt_args(sorted({f for w in want.values() for f in w})[:1] or ["md5"]))
+        if ro.exit == 0:
+            drive.run("flatten", [other, dest])
+            cs.count("destination_already_used")
+    dest_before = snap.snap(dest) if os.path.isdir(dest) else {}
     before = snap.snap(root)
     fopts = []
     if rng.random() < 0.3:
@@ -131,11 +143,9 @@ def run_case(cs):
     df = snap.diff(before, after)
     if not snap.empty(df):
         cs.violation("flatten-modifies-source", {"kind": "source-changed"}, {**ctx, "diff": {k: (v if isinstance(v, list) else list(v))[:3] for k, v in df.items()}})
-    found = []
-    for dp, dn, fn in os.walk(dest):
-        for f in fn:
-            found.append(os.path.relpath(os.path.join(dp, f), dest))
-    pls = [f for f in found if os.path.basename(f).startswith("packinglist_") and f.endswith(".mhl")]
+    dest_after = snap.snap(dest)
+    found = sorted(k for k, v in dest_after.items() if v[0] == "f" and dest_before.get(k) != v)
+    pls = [f for f in found if os.path.basename(f).startswith("packinglist_") and f.endswith(".mhl") and f not in dest_before]
     cols = [f for f in found if os.path.basename(f) == "ascmhl_collection.xml"]
     if len(pls) != 1 or len(cols) != 1 or len(found) != 2:
         cs.violation("flatten-destination-content", {"kind": "dest-files", "packinglists": len(pls), "collections": len(cols), "total": len(found)}, {**ctx, "found": found})
